@@ -32,8 +32,10 @@ ALPHA = [-255, -2, -1, 0, 1, 2, 255]
 ACCS = ["U55_32", "U55_64", "U55_128", "U55_256", "U65_256", "U65_512"]
 DISTS = ["pal2", "pal4", "pal16", "pal32", "pal33", "pal40", "uniform9", "uniform8", "sparse", "verysparse", "laplace",
          "switch", "restart", "allzero", "const", "extremes", "zeroone", "sparse_big", "index", "sindex"]
+WORST = ["paltail", "paltail60", "paltail52"]        # maximise bits per weight (output-buffer sizing of the encoder)
 HOLE_WIDTHS = [8, 16, 24, 32, 48]
 DISTS += ["hole%d%s" % (w_, v) for w_ in HOLE_WIDTHS for v in ("", "p", "z", "pz")]
+DISTS += WORST
 MODES = ["palette", "direct", "zero_runs", "uncompressed", "wtrunc", "grc_switch", "palette_restart", "slice_32767"]
 MAX_VIOLATIONS_PER_CLAUSE = 12
 MAX_CRASHES_PER_SHARD = 4
@@ -651,6 +653,9 @@ def _main(run, tier):
             n = rng.choice([1, 2, 7, 33, 64, 65, 100, 257, 513, 700, 1500, 3000]) if k else 1200
             jobs.append({"id": len(jobs), "kind": "raw", "n": n, "gen": {"dist": dist, "seed": rng.randrange(1 << 30)},
                          "modes": True})
+    for dist in WORST:          # long raw streams near the worst-case expansion, several lengths beyond any fixed slack
+        for n in ([4096, 20000] if quick else [3500, 4096, 8192, 20000, 65536, 131072]):
+            jobs.append({"id": len(jobs), "kind": "raw", "n": n, "gen": {"dist": dist, "seed": rng.randrange(1 << 30)}, "modes": True})
     for dist in (["restart", "sparse", "uniform9", "pal16", "switch", "laplace", "verysparse", "pal40"] if quick else DISTS):
         n = rng.randrange(33000, 70000)
         jobs.append({"id": len(jobs), "kind": "raw", "n": n, "gen": {"dist": dist, "seed": rng.randrange(1 << 30)}, "modes": True})
